@@ -236,7 +236,8 @@ class U:
 DB_OBJECTS = ['T1', 'T1b', 'T2', 'T3', 'T4', 'T5', 'T6', 'T7', 'E1', 'E1b', 'E2', 'E3', 'G1', 'G2', 'G3', 'R1', 'R1b', 'R2', 'R3',
               'P1', 'P2', 'S1', 'S2', 'U1', 'U2', 'U3']
 DB_OPS = [('add', x) for x in DB_OBJECTS] + [('del', x) for x in DB_OBJECTS if x not in ('U3',)] + \
-         [('ren', t, f) for t in ('T1', 'T3', 'T6') for f in ('name', 'schema', 'alias')] + [('delproject',)]
+         [('ren', t, f) for t in ('T1', 'T3', 'T6') for f in ('name', 'schema', 'alias')] + [('delproject',)] + \
+         [('ren', 'E1', 'name'), ('ren', 'E1', 'schema'), ('render',)]      # an enum renamed while contained; both renderings evaluated
 EXTRA_OBJECTS = ['E4', 'E5', 'S3', 'S4', 'T8', 'E6', 'G4', 'P3', 'S5', 'R4', 'R5', 'R1t', 'R6']
 EXTRA_OPS = [('add', x) for x in EXTRA_OBJECTS] + [('del', x) for x in EXTRA_OBJECTS]
 NEAR_OPS = EXTRA_OPS + [('add', 'T6'), ('add', 'T1'), ('add', 'T3'), ('add', 'R1'), ('del', 'R1'), ('add', 'P1'), ('del', 'P1'), ('add', 'S1'), ('delproject',)]
@@ -259,6 +260,8 @@ def model_step(u, op):
             u.keys_ever.add(u.full(t))
             return val
         return 'ok', None, apply
+    if kind == 'render':
+        return 'ok', None, (lambda: None)           # evaluating .sql / .dbml changes nothing
     if kind == 'delproject':
         if u.project is None:
             return 'reject', DBV, None
@@ -336,6 +339,13 @@ def model_step(u, op):
 def real_step(u, op, typed=False):
     db, o = u.db, u.o
     if op[0] == 'ren':
+        return None
+    if op[0] == 'render':
+        for what in ('sql', 'dbml'):
+            try:
+                getattr(db, what)
+            except Exception:  # noqa  (an inconsistent intermediate state may legitimately refuse to render)
+                pass
         return None
     if op[0] == 'delproject':
         return db.delete_project()
@@ -728,6 +738,47 @@ def run_t_history(sh, ops):
     return u
 
 
+def ctor_checks(sh):
+    """what the constructors accept is what the corresponding add_* method accepts (differential on the exception class)"""
+    from pydbml.classes import Column, Index, Table, Expression
+
+    def outcome(f):
+        try:
+            r = f()
+            return 'ok', r
+        except Exception as e:  # noqa
+            return type(e).__name__, None
+
+    def fresh():
+        zz = Table('zz')
+        f_ = Column('f', 'int')
+        zz.add_column(f_)
+        return Column('a', 'int'), Column('b', 'int'), f_
+    shapes = {'own': lambda a, b, f_: [a], 'own-two': lambda a, b, f_: [a, b], 'foreign': lambda a, b, f_: [f_], 'own-then-foreign': lambda a, b, f_: [a, f_],
+              'foreign-then-own': lambda a, b, f_: [f_, a], 'expr-and-foreign': lambda a, b, f_: [Expression('x'), f_], 'expr': lambda a, b, f_: [Expression('x')]}
+    for name, mk in shapes.items():
+        a, b, f_ = fresh()
+        o1, t1 = outcome(lambda: Table('t', columns=[a, b], indexes=[Index(mk(a, b, f_))]))
+        a2, b2, f2 = fresh()
+        t2 = Table('t', columns=[a2, b2])
+        o2, _ = outcome(lambda: t2.add_index(Index(mk(a2, b2, f2))))
+        sh.case(['ctor', name], nontrivial=True, sample={'monitor': 'constructor', 'shape': name, 'ctor': o1, 'add_index': o2})
+        sh.count('obs.constructor_differentials')
+        if o1 != o2:
+            sh.violation('call', f'constructor-differs-from-add_index:{name}', f'Table(indexes=[Index({name})]) -> {o1}, add_index -> {o2}', {'kind': 'ctor', 'shape': name})
+        elif o1 == 'ok' and (len(t1.indexes) != 1 or t1.indexes[0].table is not t1):
+            sh.violation('state', f'constructor-index-not-attached:{name}', 'index given to the constructor is not attached to the table', {'kind': 'ctor', 'shape': name})
+    # a column that already belongs to another table
+    a, b, f_ = fresh()
+    o1, _ = outcome(lambda: Table('t', columns=[f_]))
+    a2, b2, f2 = fresh()
+    t2 = Table('t')
+    o2, _ = outcome(lambda: t2.add_column(f2))
+    sh.count('obs.constructor_differentials')
+    if o1 != o2:
+        sh.violation('call', 'constructor-differs-from-add_column:owned-column', f'Table(columns=[owned]) -> {o1}, add_column -> {o2}', {'kind': 'ctor', 'shape': 'owned-column'})
+
+
 # ---------------------------------------------------------------------------
 def plan(tier, seed):
     return [{'shard': i, 'of': 16} for i in range(16)]
@@ -767,6 +818,15 @@ def run_shard(spec, tier, seed, budget_s):
                 break
             run_db_history(sh, ops, typed_mask=0 if j % 3 else (1 << depth) - 1)
             sh.count('obs.db_histories.coincidence')
+    # rendering in the middle of a history (holders added after the tables they reference and the other way round)
+    if i == 0:
+        for tabs in itertools.permutations(['T1', 'T3', 'T6', 'T2']):
+            for refs in (['R1b'], ['R1b', 'R3'], ['R3', 'R1b'], ['R1', 'R4']):
+                base = [('add', t_) for t_ in tabs] + [('add', r_) for r_ in refs]
+                for tail in ([('render',)], [('render',), ('add', 'T7'), ('render',), ('del', tabs[0])], [('render',), ('ren', 'T1', 'name'), ('render',)]):
+                    run_db_history(sh, tuple(base + tail))
+                    sh.count('obs.db_histories.with_rendering')
+        ctor_checks(sh)
     # typed entry points: all histories of length <= 2 with every call through the typed method
     for depth in (1, 2):
         for ops in itertools.product(DB_OPS, repeat=depth):
